@@ -155,6 +155,20 @@ void typed_case(Ctx &c, uint32_t kind, uint8_t nodeid, uint32_t block, bool enum
     CHECK(c, stored == want, nid ? "nodeid-relative-store" : "typed-store", "after writing %X (node id %u) the stored value is %X, expected %X", v, nodeid, stored, want);
     uint32_t g = 0; e = rd(cod, key, w, &g);
     CHECK(c, e == CO_ERR_NONE && g == v, "typed-roundtrip", "read after writing %X returned %X (error %d)", v, g, e);
+    // the same value through the other public path: the object API on the entry that the lookup returns (written through one path, read through the other)
+    if ((v ^ (v >> 8)) % 3 == 0) {
+      edge_reset(); CO_OBJ *ent = CODictFind(cod, key); CHECK(c, ent == &arr[0], "lookup-iff-exists", "CODictFind(2000:01) did not return the entry");
+      uint32_t x = 0xEEEEEEEEu; edge_reset(); e = COObjRdValue(ent, s.node, &x, (uint8_t)w); x &= maskw;
+      CHECK(c, e == CO_ERR_NONE && x == v, "typed-roundtrip", "COObjRdValue after CODictWr of %X returned %X (error %d)", v, x, e);
+      uint32_t v2 = (v * 2654435761u + 0x9E37u) & maskw, y = v2; edge_reset(); e = COObjWrValue(ent, s.node, &y, (uint8_t)w);
+      CHECK(c, e == CO_ERR_NONE, "typed-roundtrip", "COObjWrValue of %X to a %d-bit entry failed with %d", v2, 8 * w, e);
+      uint32_t st2 = direct ? (uint32_t)arr[0].Data & maskw : (w == 1 ? *(uint8_t *)store : w == 2 ? *(uint16_t *)store : *(uint32_t *)store);
+      CHECK(c, st2 == (nid ? (v2 - nodeid) & maskw : v2), nid ? "nodeid-relative-store" : "typed-store", "after COObjWrValue of %X (node id %u) the stored value is %X", v2, nodeid, st2);
+      g = 0; e = rd(cod, key, w, &g);
+      CHECK(c, e == CO_ERR_NONE && g == v2, "typed-roundtrip", "CODictRd after COObjWrValue of %X returned %X (error %d)", v2, g, e);
+      uint32_t sz = COObjGetSize(ent, s.node, (uint32_t)w);
+      CHECK(c, sz == (uint32_t)w, "exact-width", "COObjGetSize(width %d) of a %d-bit entry is %u", w, 8 * w, sz);
+    }
     c.ops++;
   };
   if (w == 1) for (uint32_t v = 0; v < 256; v++) one(v);
